@@ -398,7 +398,306 @@ def float_fields(o):
                         if isinstance(v, (float, np.floating))))
 
 
+
+# ----------------------------------------------------------------------
+# lifecycle part: other ways of obtaining a generator (get_similar_fading_generator of a parent that
+# already ran, the shape setter mid-history), a second live generator used alternately, error paths
+# ----------------------------------------------------------------------
+LIFE_FDTS_L = ((100.0, 1e-3, 8, None), (5.0, 3.25e-8, 1, (2, 3)))
+LIFE_VALID = (("generate", 1), ("generate", 7), ("skip", 5), ("b_generate", 3), ("b_skip", 5))
+# invalid requests: if they raise, the object must be field-for-field unchanged and go on as if nothing happened
+LIFE_INVALID = (("generate", 2.5), ("generate", "3"), ("skip", None),
+                ("set_shape", "x"), ("set_shape", (-1,)), ("set_shape", (2.5,)))
+# outside the property's domain and not documented to raise: accepted -> terminal state, raised -> as above
+LIFE_OUT_OF_DOMAIN = (("generate", 0), ("generate", -1), ("skip", -5))
+
+
+def life_configs(seed, thorough):
+    out = []
+    pre_sets = ((), (("generate", 7),), (("skip", 10 ** 6),), (("generate", 3500),))
+    for Fd, Ts, L, shape in LIFE_FDTS_L:
+        other = 3 if shape is None else None
+        roots = [("ctor",)] + [("similar", pre) for pre in pre_sets]
+        roots += [("shape", other, (("generate", 7),)), ("shape", other, (("skip", 10 ** 6),))]
+        for root in roots:
+            ks = 1 + sum(n for _, n in root[2]) if root[0] == "shape" else 1
+            out.append(dict(Fd=Fd, Ts=Ts, L=L, shape=shape, big=False, life=True, root=root, k_start=ks))
+    for i, c in enumerate(out):
+        c["index"] = 2000 + i
+        c["rs_seed"] = 91000 + 1000 * seed + i
+    return out
+
+
+def _digest(g):
+    return (bfs.digest(vars(g), 13), float_fields(g))
+
+
+class LState:
+    def __init__(self):
+        self.a = self.b = None        # JState views of the two live generators
+        self.spec_b = None
+        self.hist_a = self.hist_b = ()
+        self.last = None              # "a" / "b": whose request the last event was
+        self.problem = None           # (signature, observed, expected)
+        self.terminal = False         # out-of-domain request accepted: nothing is defined afterwards
+        self.note = None              # outcome of the last invalid / out-of-domain request
+
+
+def _view(g, phi, psi, s0, k):
+    v = JState()
+    v.g, v.phi, v.psi, v.s0, v.k = g, phi, psi, s0, k
+    return v
+
+
+def build_life(cfg, hist):
+    st = LState()
+    try:
+        d = derive(cfg)
+        g = d["g"]
+        st.a = _view(g, np.array(g._phi_l, dtype=float, copy=True), np.array(g._psi_l, dtype=float, copy=True),
+                     np.array(g.get_samples(), copy=True), cfg["k_start"])
+        if d["parent"] is not None:
+            # the second live object is the parent the generator was derived from
+            pre = sum(n for _, n in cfg["root"][1])
+            st.b = _view(d["parent"], d["parent_phi"], d["parent_psi"], d["parent_s0"], 1 + pre)
+            st.spec_b = dict(cfg, root=("ctor",), k_start=1)
+        else:
+            st.spec_b = dict(cfg, root=("ctor",), k_start=1, rs_seed=cfg["rs_seed"] + 500)
+            h = derive(st.spec_b)["g"]
+            st.b = _view(h, np.array(h._phi_l, dtype=float, copy=True), np.array(h._psi_l, dtype=float, copy=True),
+                         np.array(h.get_samples(), copy=True), 1)
+    except Exception as e:  # noqa
+        st.problem = (("obtain_generator", (cfg.get("root") or ("ctor",))[0], "raises", type(e).__name__),
+                      repr(e), "a generator")
+        return st
+    for ev in hist:
+        kind, n = ev
+        on_b = kind.startswith("b_")
+        o, other = (st.b, st.a) if on_b else (st.a, st.b)
+        st.last = "b" if on_b else "a"
+        st.note = None
+        base = kind[2:] if on_b else kind
+        valid = base in ("generate", "skip") and isinstance(n, int) and not isinstance(n, bool) and \
+            (n >= 1 if base == "generate" else n >= 0)
+        other_before = _digest(other.g)
+        before = _digest(o.g)
+        o.k_before = o.k
+        o.prev_samples = np.array(o.g.get_samples(), copy=True)
+        try:
+            if base == "generate":
+                o.g.generate_more_samples(n)
+            elif base == "skip":
+                o.g.skip_samples_for_next_generation(n)
+            else:
+                o.g.shape = n
+            raised = None
+        except Exception as e:  # noqa
+            raised = e
+        if _digest(other.g) != other_before:
+            st.problem = (("live_objects", "request_on_one_generator_changes_the_other", base),
+                          "%s(%r) on one generator changed the other one" % (base, n), "independent objects")
+            return st
+        if valid:
+            if raised is not None:
+                o.err = (base, raised)
+                return st
+            o.k += n
+            if on_b:
+                st.hist_b += ((base, n),)
+            else:
+                st.hist_a += ((base, n),)
+        elif raised is None:
+            st.terminal = True
+            st.note = ("accepted", base, repr(n))
+            return st
+        else:
+            st.note = ("raised_" + type(raised).__name__, base, repr(n))
+            if _digest(o.g) != before:
+                what = "invalid_shape" if base == "set_shape" else "invalid_n"
+                st.problem = (("error_path", base if base != "set_shape" else "shape_setter",
+                               what + "_raises_but_object_changed"),
+                              "%s(%r) raised %s and left the object changed" % (base, n, type(raised).__name__),
+                              "object field-for-field unchanged after the exception")
+                return st
+    return st
+
+
+def _listify(x):
+    return [_listify(e) for e in x] if isinstance(x, (tuple, list)) else x
+
+
+def _tuplify(x):
+    return tuple(_tuplify(e) for e in x) if isinstance(x, (tuple, list)) else x
+
+
+def life_case(cfg, hist):
+    c = case_of(cfg, hist)
+    c.update(part="lifecycle", root=_listify(cfg["root"]), k_start=cfg["k_start"], history=_listify(hist))
+    return c
+
+
+def check_life(chk, cfg, hist, st):
+    case = life_case(cfg, hist)
+    chk.count("eval_lifecycle_states")
+    chk.outcome("lifecycle_root", (cfg["root"][0], len(cfg["root"]) > 1 and repr(cfg["root"][-1])))
+    if st.problem is not None:
+        sig, obs, exp = st.problem
+        chk.fail(sig, case, observed=obs, expected=exp)
+        return
+    if st.note is not None:
+        chk.outcome("invalid_request", st.note)
+        chk.count("eval_invalid_requests")
+        return
+    if not hist:
+        # the derived generator: configuration of the parent, sample 0 of its own process
+        check_state(chk, cfg, (), st.a, case=case)
+        if cfg["root"][0] != "similar":
+            check_state(chk, st.spec_b, (), st.b, case=case)
+        return
+    if st.last == "a":
+        check_state(chk, cfg, st.hist_a, st.a, case=case)
+    else:
+        chk.count("eval_second_live_object")
+        check_state(chk, st.spec_b, st.hist_b, st.b, case=case)
+
+
+def run_life(chk, cfg, depth):
+    evs = list(LIFE_VALID) + list(LIFE_INVALID) + list(LIFE_OUT_OF_DOMAIN)
+
+    def b(hist):
+        return build_life(cfg, hist)
+
+    def enabled(hist, st):
+        if st.problem is not None or st.terminal or st.a is None or st.a.err is not None or st.b.err is not None:
+            return []
+        if len(hist) + 1 >= depth:
+            # the last event of a history is only useful when it observes something
+            return [e for e in evs if e[0] in ("generate", "b_generate") and isinstance(e[1], int) and e[1] >= 1]
+        return evs
+
+    def invariant(hist, st):
+        with chk.guard(("jakes", "lifecycle"), life_case(cfg, hist)):
+            check_life(chk, cfg, hist, st)
+
+    def canon(hist, st):
+        if st.problem is not None or st.a is None:
+            return ("failed", hist)
+        return (st.a.k, st.b.k, st.terminal, st.note, _digest(st.a.g), _digest(st.b.g))
+
+    bfs.BFS(chk, b, enabled, invariant, canon, depth, label="life%d" % cfg["index"]).run([()])
+
+
+# ----------------------------------------------------------------------
+# module-level generate_jakes_samples with explicit current_time (chains of two calls) and
+# RayleighSampleGenerator (shape / count only)
+# ----------------------------------------------------------------------
+def function_case(chk, case):
+    from pyphysim.channels import fading_generators as FG
+    Fd, Ts, L, shape, k0 = case["Fd"], case["Ts"], case["L"], _tuplify(case["shape"]), case["k0"]
+    cfg = dict(Fd=Fd, Ts=Ts, L=L, shape=shape, index=3000)
+    rs = np.random.RandomState(case["phase_seed"])
+    dims = (L,) + shape_tuple(shape) + (1,)
+    phi, psi = 2 * math.pi * rs.rand(*dims), 2 * math.pi * rs.rand(*dims)
+    if True:
+        if True:
+            if True:
+                if True:
+                    if True:
+                        t, k = k0 * Ts, k0
+                        for n in case["n"]:
+                            chk.count("eval_function_calls")
+                            t_new, h = FG.generate_jakes_samples(Fd, Ts, n, L, shape, t, phi.copy(), psi.copy())
+                            want_shape = shape_tuple(shape) + (n,)
+                            if np.shape(h) != want_shape:
+                                chk.fail(("generate_jakes_samples", "wrong_shape", pos_bucket(k)), case,
+                                         observed=np.shape(h), expected=want_shape)
+                                break
+                            dt_tol = (REL_T * (k + n) + ABS_T) * Ts
+                            if not abs(t_new - (k + n) * Ts) <= dt_tol:
+                                chk.fail(("generate_jakes_samples", "returned_current_time", pos_bucket(k)), case,
+                                         observed=t_new, expected=(k + n) * Ts)
+                            ref = jakes_reference(cfg, phi, psi, k, n)
+                            if not np.all(np.abs(h - ref) <= value_tol(cfg, k + n)):
+                                chk.fail(("generate_jakes_samples", "value_vs_jakes_formula", pos_bucket(k)), case,
+                                         observed=np.asarray(h).ravel()[:3], expected=ref.ravel()[:3])
+                            chk.outcome("function_call", (decade(k), n))
+                            t, k = t_new, k + n
+
+
+def check_function_part(chk, seed):
+    from pyphysim.channels import fading_generators as FG
+    for ci, (Fd, Ts, L, shape) in enumerate(LIFE_FDTS_L + ((0.4, 1.0, 8, (3,)),)):
+        for k0 in (0, 1, 7, 3500, 10 ** 6, 10 ** 7 + 3):
+            for n1 in (1, 7, 100, 4097):
+                for n2 in (1, 7, 100, 4097):
+                    case = {"part": "function", "Fd": Fd, "Ts": Ts, "L": L, "shape": shape, "k0": k0,
+                            "n": [n1, n2], "phase_seed": 4242 + 1000 * seed + ci}
+                    with chk.guard(("generate_jakes_samples",), case):
+                        function_case(chk, case)
+        # phases drawn by the function itself: shape / count only
+        np.random.seed(99 + seed)
+        t_new, h = FG.generate_jakes_samples(Fd, Ts, 13, L, shape)
+        if np.shape(h) != shape_tuple(shape) + (13,):
+            chk.fail(("generate_jakes_samples", "wrong_shape", "own_phases"),
+                     {"part": "function", "Fd": Fd, "Ts": Ts, "L": L, "shape": shape, "k0": 0, "n": [13]},
+                     observed=np.shape(h), expected=shape_tuple(shape) + (13,))
+
+
+def check_rayleigh_part(chk, seed):
+    """the statement's shape / count clause applies; values are independent draws"""
+    from pyphysim.channels.fading_generators import RayleighSampleGenerator
+    for shape in (None, 3, (2, 3)):
+        shp = shape_tuple(shape)
+        for hist in [()] + [(a,) for a in (("generate", 1), ("generate", 100), ("skip", 5), ("similar", 0))] + \
+                [(("generate", 7), ("skip", 10 ** 6), ("generate", 2)), (("set_shape", 4), ("generate", 3)),
+                 (("similar", 0), ("generate", 5)), (("generate", 5), ("set_shape", None), ("generate", 2))]:
+            case = {"part": "rayleigh", "shape": shape, "history": [list(h) for h in hist], "np_seed": 7 + seed}
+            with chk.guard(("rayleigh",), case):
+                rayleigh_case(chk, case)
+
+
+def rayleigh_case(chk, case):
+    from pyphysim.channels.fading_generators import RayleighSampleGenerator
+    shape = _tuplify(case["shape"])
+    hist = [tuple(h) for h in case["history"]]
+    if True:
+        if True:
+            if True:
+                np.random.seed(case["np_seed"])
+                g = RayleighSampleGenerator(shape)
+                cur = shape_tuple(shape)
+                chk.count("eval_rayleigh_states")
+                for kind, n in hist:
+                    before = np.array(g.get_samples(), copy=True)
+                    if kind == "generate":
+                        g.generate_more_samples(n)
+                        s = np.asarray(g.get_samples())
+                        if s.shape != cur + (n,) or not np.all(np.isfinite(s)) or not np.iscomplexobj(s):
+                            chk.fail(("rayleigh", "generate_wrong_shape_or_values"), case,
+                                     observed=(s.shape, str(s.dtype)), expected=cur + (n,))
+                    elif kind == "skip":
+                        g.skip_samples_for_next_generation(n)
+                        if not np.array_equal(np.asarray(g.get_samples()), before):
+                            chk.fail(("rayleigh", "skip_changes_get_samples"), case)
+                    elif kind == "set_shape":
+                        g.shape = _tuplify(n)
+                        cur = shape_tuple(_tuplify(n))
+                    else:
+                        g = g.get_similar_fading_generator()
+                        if shape_tuple(g.shape) != cur:
+                            chk.fail(("rayleigh", "similar_generator_other_shape"), case, observed=g.shape,
+                                     expected=cur)
+                    chk.outcome("rayleigh", (kind, cur))
+
+
 def run_config(chk, cfg, depth):
+    if cfg.get("life"):
+        return run_life(chk, cfg, depth)
+    if cfg.get("other_parts"):
+        check_function_part(chk, chk.seed)
+        check_rayleigh_part(chk, chk.seed)
+        chk.states += 1
+        return
     evs = events(cfg)
 
     def b(hist):
@@ -432,6 +731,9 @@ def plan(chk):
     for c in sorted(block_configs(chk.seed, thorough),
                     key=lambda c: -(c["L"] * (3 if c["shape"] else 4))):
         jobs.append((c, 3))
+    for c in life_configs(chk.seed, thorough):
+        jobs.append((c, 4 if thorough else 3))
+    jobs.append((dict(other_parts=True, Fd=0.0, Ts=1.0, L=1, shape=None, rs_seed=0, index=-2), 0))
     if thorough:
         for c in configs(chk.seed, big=True):
             jobs.append((c, 3))
@@ -464,9 +766,30 @@ def main(chk: Check):
         # vacuity only matters for a "holds" verdict; a run with other violations must stay a VIOLATION
         chk.require_outcomes("position_decade", 6)
         chk.require_outcomes("generate_result", 20)
+        chk.require_outcomes("lifecycle_root", 7)
+        chk.require_outcomes("invalid_request", 6)
+        chk.require_outcomes("function_call", 12)
+        chk.require_outcomes("rayleigh", 6)
 
 
 def replay(case, chk: Check):
+    part = case.get("part")
+    if part == "function":
+        with chk.guard(("generate_jakes_samples",), case):
+            function_case(chk, case)
+        return
+    if part == "rayleigh":
+        with chk.guard(("rayleigh",), case):
+            rayleigh_case(chk, case)
+        return
+    if part == "lifecycle":
+        cfg = dict(Fd=case["Fd"], Ts=case["Ts"], L=case["L"], shape=_tuplify(case["shape"]),
+                   rs_seed=case["rs_seed"], life=True, root=_tuplify(case["root"]), k_start=case["k_start"],
+                   index=-1)
+        hist = tuple((h[0], _tuplify(h[1])) for h in case["history"])
+        with chk.guard(("jakes", "lifecycle"), case):
+            check_life(chk, cfg, hist, build_life(cfg, hist))
+        return
     cfg = dict(Fd=case["Fd"], Ts=case["Ts"], L=case["L"], shape=case["shape"],
                rs_seed=case["rs_seed"], big=case.get("big", False), block=case.get("block", False),
                index=-1)
